@@ -196,14 +196,26 @@ var c15ConvNames = []string{"Interface", "InterfaceUseNumber", "InterfaceUseNode
 // c15Convert is one of the conversions to Go values; all of them must describe the same tree.
 func c15Convert(t *ast.Node, conv int) (interface{}, error) {
 	ty := t.TypeSafe()
+	// by-value children: render each through its own MarshalJSON. A by-value copy of a
+	// partially parsed child shares its parse stack with the original (known finding F14):
+	// such a child is read through the parent instead, except in the runs that read lazy
+	// copies on purpose (classified by the exact precondition).
+	render := func(copyOf ast.Node, viaParent *ast.Node) ([]byte, error) {
+		nn := copyOf
+		if _, lazy, _ := ast.SimState(&nn); lazy {
+			if !c15ReadLazyCopies {
+				return viaParent.MarshalJSON()
+			}
+			c15CopiedLazy = true
+		}
+		return nn.MarshalJSON()
+	}
 	nodes := func(v interface{}) (interface{}, error) {
-		// by-value children: render each through its own MarshalJSON
 		switch x := v.(type) {
 		case map[string]ast.Node:
 			m := map[string]json.RawMessage{}
 			for k, n := range x {
-				nn := n
-				b, err := nn.MarshalJSON()
+				b, err := render(n, t.Get(k))
 				if err != nil {
 					return nil, err
 				}
@@ -212,9 +224,8 @@ func c15Convert(t *ast.Node, conv int) (interface{}, error) {
 			return m, nil
 		case []ast.Node:
 			a := []json.RawMessage{}
-			for _, n := range x {
-				nn := n
-				b, err := nn.MarshalJSON()
+			for i, n := range x {
+				b, err := render(n, t.Index(i))
 				if err != nil {
 					return nil, err
 				}
@@ -226,11 +237,6 @@ func c15Convert(t *ast.Node, conv int) (interface{}, error) {
 			return json.RawMessage(b), err
 		}
 		return v, nil
-	}
-	if conv == 2 || conv == 5 {
-		// copies of partially parsed children share their parse stack with the original
-		// (known finding F14): hand out copies of fully parsed children only
-		t.LoadAll()
 	}
 	switch conv {
 	case 1:
